@@ -3,6 +3,7 @@
 package c02
 
 import (
+	"bytes"
 	"encoding/json"
 	"fmt"
 	"sort"
@@ -299,8 +300,17 @@ func (in *inst) expected(ch string) [2]bool {
 
 // probe publishes once and compares what each client receives with the reference.
 func (in *inst) probe(pub int, topic, ch string, me0 bool) (string, string) {
+	return in.probeSized(pub, topic, ch, me0, 0)
+}
+
+// probeSized: pad > 0 makes the payload that many bytes longer (a message near the size limit must be delivered
+// like any other: same recipients, once, payload unchanged).
+func (in *inst) probeSized(pub int, topic, ch string, me0 bool, pad int) (string, string) {
 	in.seq++
 	payload := []byte(fmt.Sprintf("p%d", in.seq))
+	if pad > 0 {
+		payload = append(payload, bytes.Repeat([]byte{'#'}, pad)...)
+	}
 	t := topic
 	if me0 {
 		t += "?me=0"
@@ -384,6 +394,12 @@ func (in *inst) Check() (string, string) {
 			if s, w := in.probe(pub, name, ch, false); s != "" {
 				return in.sig(s + ":via-link"), w
 			}
+		}
+	}
+	// one large message per publisher (above the usual buffer thresholds, below the 64 KiB limit)
+	for pub := 0; pub < 2; pub++ {
+		if s, w := in.probeSized(pub, key+"/a/b/", "a/b/", false, 60000); s != "" {
+			return in.sig(s + ":large-payload"), w
 		}
 	}
 	// failing publishes leave everything unchanged (verified by the probes above on the next state
